@@ -79,6 +79,11 @@ int main(int argc, char **argv) {
             fprintf(stderr, "gitshim: unknown mode %s\n", mode); return 99;
         }
     }
+    {
+        /* a git that answers correctly but late (a big repository, a cold disk): ZERV_VERIF_GIT_DELAY_MS per call */
+        const char *delay = getenv("ZERV_VERIF_GIT_DELAY_MS");
+        if (delay && *delay) { long ms = atol(delay); if (ms > 0) usleep((useconds_t)ms * 1000); }
+    }
     if (!real || !*real) { fprintf(stderr, "gitshim: ZERV_VERIF_REAL_GIT not set\n"); return 127; }
     argv[0] = (char *)real;
     execv(real, argv);
